@@ -23,10 +23,11 @@ from vlib.props import C01, C02
 ID = "C13"
 LEVEL = "exploration"
 EXHAUSTIVE = False
-EXHAUSTIVE_STREAMS = {'enumerated': 'every template x every knowledge assignment (complete)', 'random': 'sampled'}
+EXHAUSTIVE_STREAMS = {'enumerated': 'every template x every knowledge assignment (complete)', 'script': 'every template x 4 assignments x every (statement before, statement after) from 9 extras (complete in thorough; a seed-rotated third in quick)', 'random': 'sampled'}
 RULE = ("case = (IR statement over schema-qualified tables, knowledge assignment: each table of the scope and the target known-with-columns or unknown, "
         "provider kind). enumerated stream: every shape template x every knowledge assignment over <= 3 scope tables + target (bounded-exhaustive); "
-        "random stream: Hypothesis over templates, column sets (overlap none/partial) and assignments. Non-trivial = >= 1 known table in a scope of >= 2 "
+        "script stream: every template between every pair of extra statements (write-only, read-only, DROP, feeding / reading the template's tables), judged on table "
+        "lineage only; random stream: Hypothesis over templates, column sets (overlap none/partial) and assignments. Non-trivial = >= 1 known table in a scope of >= 2 "
         "relations, or a star over a known table; distinct = distinct (SQL, metadata).")
 ASSUMPTIONS = [
     "tables are schema-qualified (the implementation consults metadata for unresolved columns only on tables with a known schema, as the property's quantifier says)",
@@ -182,6 +183,15 @@ def check(stmt_sql, exp, md, scope_tables):
 
 
 def classify(case, detail):
+    """K-drop-known-table: DROP TABLE x leaves x in the result when the provider knows x (its metadata columns count as wiring);
+    trigger = the script drops a table the metadata lists, symptom = the table summaries differ by exactly the dropped tables"""
+    import re
+
+    if case.get("script") and "changes table lineage of a script" in detail.get("what", ""):
+        dropped = {t.lower() for t in re.findall(r"drop table (?:if exists )?([\w.]+)", case["sql"], flags=re.I)} & set(case["metadata"])
+        a, b = detail.get("without"), detail.get("with")
+        if dropped and isinstance(a, list) and isinstance(b, list) and all(isinstance(x, str) for x in a + b) and set(a) ^ set(b) <= dropped:
+            return "K-drop-known-table@C13"
     return None
 
 
@@ -251,7 +261,86 @@ def _random_worker(payload):
     return res
 
 
+EXTRAS = [
+    None,
+    "INSERT INTO s3.t VALUES (1, 2)",          # written without any source: an edge-less target
+    "CREATE TABLE s3.u (a int, b int)",
+    "UPDATE s3.w SET a = 1",
+    "SELECT a FROM s3.r",                       # read only
+    "INSERT INTO s4.x SELECT c1 FROM s9.tgt",   # reads the template's target
+    "INSERT INTO s1.ta SELECT z, z2 FROM s5.src",  # feeds one of the template's sources
+    "DROP TABLE s3.t",
+    "INSERT INTO s9.tgt VALUES (1, 2)",
+]
+
+
+def script_cases():
+    """multi-statement scripts: [extra;] template statement [; extra] x three knowledge assignments; the oracle is the first clause only
+    (table-level lineage with the provider = without it)"""
+    for name, build in templates():
+        stmt, scope, flags = build()
+        mds = [{q(i): COLSETS[i][0] for i in scope}, {q(i): COLSETS[i][1] for i in scope}, {q(scope[0]): COLSETS[scope[0]][0]}]
+        mds.append(dict(mds[0], **{"s9.tgt": ["t1", "t2"], "s3.t": ["a", "b"]}))
+        body = ir.r_stmt(stmt)
+        for mi, md in enumerate(mds):
+            for pre in EXTRAS:
+                for post in EXTRAS:
+                    if pre is None and post is None:
+                        continue
+                    yield name, ";\n".join(x for x in (pre, body, post) if x), md, mi
+
+
+def table_view(sql, md, provider_kind):
+    try:
+        if not md:
+            lr = observe.runner_of(sql, "ansi")
+        elif provider_kind == "dummy":
+            lr = observe.runner_of(sql, "ansi", metadata=md)
+        else:
+            lr = observe.runner_of(sql, "ansi", provider=make_sqlalchemy(md))
+        return {"S": [str(t) for t in lr.source_tables], "T": [str(t) for t in lr.target_tables], "I": [str(t) for t in lr.intermediate_tables],
+                "cyT": observe.cyto(lr.to_cytoscape())}
+    except Exception as e:  # noqa
+        return {"EXC": observe.exc_name(e)}
+
+
+def check_script(sql, md, with_sqlalchemy):
+    base = table_view(sql, None, None)
+    for kind in ("dummy", "sqlalchemy") if with_sqlalchemy else ("dummy",):
+        got = table_view(sql, md, kind)
+        for k in ("EXC", "S", "T", "I", "cyT"):
+            if base.get(k) != got.get(k):
+                return {"what": f"metadata changes table lineage of a script ({k})", "provider": kind, "without": base.get(k), "with": got.get(k)}
+    return None
+
+
+def _script_worker(payload):
+    shard, nshards, ctx = payload
+    res = runner.Res()
+    for idx, (name, sql, md, mi) in enumerate(script_cases()):
+        if idx % nshards != shard:
+            continue
+        if ctx.quick and (idx // nshards) % 3 != ctx.seed % 3:
+            continue  # quick: a third of the enumeration, rotating with the seed
+        c = {"script": True, "sql": sql, "metadata": md}
+        res.case((sql, json.dumps(md, sort_keys=True)), True, labels=["script", "script_template:" + name.split(":")[0]], sample=c if idx % 97 == 0 else None)
+        d = check_script(sql, md, with_sqlalchemy=(idx % 8 == 0))
+        if d is None:
+            continue
+        fid = classify(c, d)
+        if fid and fid in ctx.active:
+            res.known(fid, c)
+        elif os.environ.get("VERIF_COLLECT"):
+            res.known("UNLISTED script | " + d["what"] + " | " + name, c)
+        elif len(res.violations) < 4:
+            res.violation("script", c, d)
+    return res
+
+
 def replay(case):
+    if case.get("script"):
+        d = check_script(case["sql"], case["metadata"], True)
+        return None if d is None else {"kind": "replay", "case": case, "detail": d}
     e = case["expected"]
     d = check(case["sql"], (e["S"], e["T"], [tuple(p) for p in e["pairs"]]), case["metadata"], case.get("scope", []))
     return None if d is None else {"kind": "replay", "case": case, "detail": d}
@@ -260,6 +349,7 @@ def replay(case):
 def run(ctx):
     nshards = runner.NCPU
     res = runner.merge_all(runner.pmap(_enum_worker, [(i, nshards, ctx) for i in range(nshards)]))
+    res.merge(runner.merge_all(runner.pmap(_script_worker, [(i, nshards, ctx) for i in range(nshards)])))
     n = ctx.n(800, 16000)
     res.merge(runner.merge_all(runner.pmap(_random_worker, [(i, n // runner.NCPU, ctx) for i in range(runner.NCPU)])))
     return res
